@@ -62,7 +62,7 @@ type ftype struct {
 var schema = map[string]map[string]ftype{
 	"Query": {"a1": {"A", false}, "aNil": {"A", false}, "as": {"A", true}, "u1": {"U", false}, "u2": {"U", false},
 		"uNil": {"U", false}, "us": {"U", true}, "n": {"Int", false}},
-	"A": {"id": {"Int", false}, "x": {"Int", false}, "name": {"String", false}, "b": {"B", false}, "bs": {"B", true}, "vbs": {"B", true},
+	"A": {"id": {"Int", false}, "x": {"Int", false}, "name": {"String", false}, "b": {"B", false}, "bv": {"B", false}, "bs": {"B", true}, "vbs": {"B", true},
 		"u": {"U", false}, "sq": {"Int", false}},
 	"B": {"id": {"Int", false}, "y": {"Int", false}, "tag": {"String", false}, "a": {"A", false}, "as": {"A", true}},
 }
@@ -150,7 +150,7 @@ func (g *gen) selset(t string, depth int) *SelSet {
 	ss := emptySet()
 	if members, ok := unions[t]; ok {
 		if g.r.Intn(3) == 0 {
-			ss.Sels = append(ss.Sels, &Sel{Alias: "__typename", Name: "__typename", Dirs: []Dir{}, Sub: emptySet()})
+			ss.Sels = append(ss.Sels, &Sel{Alias: "__typename", Name: "__typename", Dirs: g.dirsFor(), Sub: emptySet()})
 		}
 		n := g.r.Intn(4)
 		if n == 0 && len(ss.Sels) == 0 {
@@ -192,7 +192,7 @@ func (g *gen) selset(t string, depth int) *SelSet {
 				ss.Sels = append(ss.Sels, &d)
 			}
 		case x < 8:
-			s := &Sel{Name: "__typename", Alias: "__typename", Dirs: []Dir{}, Sub: emptySet()}
+			s := &Sel{Name: "__typename", Alias: "__typename", Dirs: g.dirsFor(), Sub: emptySet()}
 			if g.r.Intn(3) == 0 {
 				s.Alias = "tn"
 			}
